@@ -12,6 +12,7 @@ handed (the layout contract of the theorems is checked on it) and wraps the user
 the call log.  Lean evaluates `holds` on the real observation and compares it with the model.
 """
 import os
+import random
 import shutil
 
 import numpy as np
@@ -29,6 +30,16 @@ def py_fn(fn):
     name = fn["name"]
     if name == "scale":
         k = float(core.unfrac(fn["k"]))
+        if fn.get("py") == "inplace":
+            # mutates the slice it was handed (a view of the matrix's own value array) and returns it
+            def f(v, i, m):
+                v *= k
+                return v
+            return f
+        if fn.get("py") == "list":
+            return lambda v, i, m: [float(x) * k for x in v]   # a plain list, not an array
+        if fn.get("py") == "tuple":
+            return lambda v, i, m: tuple(v * k)
         return lambda v, i, m: v * k
     if name == "square":
         return lambda v, i, m: v * v
@@ -200,7 +211,8 @@ def build_case_table(case):
     return apply_hist(core.build(case["spec"], case["route"]), case.get("hist"))
 
 
-HISTS = [None, None, "csc-transform", "csc-filter", "csr-transform"]
+HISTS = [None, None, "csc-transform", "csc-filter", "csr-transform", "rank-min-sample", "rank-ordinal-observation",
+         "double-sample"]
 
 
 def apply_hist(t, hist):
@@ -217,20 +229,101 @@ def apply_hist(t, hist):
         t.norm(axis="sample", inplace=True)
     elif hist == "norm-observation":
         t.norm(axis="observation", inplace=True)
+    elif hist == "rank-min-sample":
+        t.rankdata(axis="sample", inplace=True, method="min")
+    elif hist == "rank-ordinal-observation":
+        t.rankdata(axis="observation", inplace=True, method="ordinal")
+    elif hist == "double-sample":
+        t.transform(lambda v, i, m: v * 2, axis="sample", inplace=True)
     return t
+
+
+def view_tables(t, rng, which=None):
+    """the content of `t` as seen through per-ID accessors, asked in random order: one table JSON per accessor"""
+    obs_ids = [str(i) for i in t.ids(axis="observation")]
+    samp_ids = [str(i) for i in t.ids()]
+    frame = {"obs": obs_ids, "samp": samp_ids, "omd": core.canon_md(t.metadata(axis="observation")),
+             "smd": core.canon_md(t.metadata(axis="sample")), "type": t.type}
+    kinds = ["by-obs", "by-samp", "by-cell", "iter-obs", "iter-samp"]
+    rng.shuffle(kinds)
+    if which is not None:
+        kinds = kinds[:which]
+    out = []
+    for k in kinds:
+        if k == "by-obs":
+            order = list(range(len(obs_ids)))
+            rng.shuffle(order)
+            rows = [None] * len(obs_ids)
+            for i in order:
+                rows[i] = [core.frac(x) for x in t.data(obs_ids[i], axis="observation", dense=True)]
+        elif k == "by-samp":
+            order = list(range(len(samp_ids)))
+            rng.shuffle(order)
+            cols = [None] * len(samp_ids)
+            for j in order:
+                cols[j] = [core.frac(x) for x in t.data(samp_ids[j], axis="sample", dense=True)]
+            rows = [[cols[j][i] for j in range(len(samp_ids))] for i in range(len(obs_ids))]
+        elif k == "by-cell":
+            rows = [[core.frac(t.get_value_by_ids(o, s_)) for s_ in samp_ids] for o in obs_ids]
+        elif k == "iter-obs":
+            got = {str(i): [core.frac(x) for x in v] for v, i, _ in t.iter(dense=True, axis="observation")}
+            rows = [got[o] for o in obs_ids]
+        else:
+            got = {str(i): [core.frac(x) for x in v] for v, i, _ in t.iter(dense=True, axis="sample")}
+            rows = [[got[s_][i] for s_ in samp_ids] for i in range(len(obs_ids))]
+        out.append(dict(frame, rows=rows, view=k))
+    return out
+
+
+def coherent_lookup(t):
+    """the table still answers by-ID queries through its own lookups"""
+    for axis in ("observation", "sample"):
+        ids = list(t.ids(axis=axis))
+        for pos, i in enumerate(ids):
+            if not t.exists(i, axis=axis) or t.index(i, axis) != pos:
+                return False
+        for u in core.tricky_unknown_ids(ids)[:6]:
+            if t.exists(u, axis=axis):
+                return False
+    return True
+
+
+def make_bystanders(t, rng):
+    """tables derived from `t` that stay alive while `t` (or the result) is changed in place"""
+    obs, samp = list(t.ids(axis="observation")), list(t.ids())
+    cands = [("copy", lambda: t.copy()),
+             ("filter-copy", lambda: t.filter(lambda v, i, m: True, axis=rng.choice(["sample", "observation"]),
+                                              inplace=False)),
+             ("sort_order", lambda: t.sort_order(samp)),
+             ("sort_order-obs", lambda: t.sort_order(obs, axis="observation")),
+             ("transpose2", lambda: t.transpose().transpose()),
+             ("transform-copy", lambda: t.transform(lambda v, i, m: v, axis=rng.choice(["sample", "observation"]),
+                                                    inplace=False)),
+             ("pa-copy", lambda: t.pa(inplace=False))]
+    rng.shuffle(cands)
+    out = []
+    for name, mk in cands[:rng.randint(1, 3)]:
+        b = mk()
+        out.append((name, b, core.table_obs(b)))
+    return out
 
 
 def invoke(case, t):
     """run the operation of a table-level case on table `t`; returns (result, fn json builder)"""
     op = case["op"]
     axis, inplace = case["axis"], case["inplace"]
+    pos = case.get("call") == "positional"   # the docstring's spelling: t.transform(f, 'observation', False)
     if op == "transform":
+        if pos:
+            return t.transform(py_fn(case["fn"]), axis, inplace)
         return t.transform(py_fn(case["fn"]), axis=axis, inplace=inplace)
     if op == "norm":
-        return t.norm(axis=axis, inplace=inplace)
+        return t.norm(axis, inplace) if pos else t.norm(axis=axis, inplace=inplace)
     if op == "pa":
-        return t.pa(inplace=inplace)
+        return t.pa(inplace) if pos else t.pa(inplace=inplace)
     if op == "rankdata":
+        if pos:
+            return t.rankdata(axis, inplace, case["method"])
         return t.rankdata(axis=axis, inplace=inplace, method=case["method"])
     raise ValueError(op)
 
@@ -281,7 +374,7 @@ def model_fn_and_check(case, before, cap):
     extra = {}
     if op == "transform":
         fn = case["fn"]
-        check = "elem" if fn in ELEMENTWISE else "generic"
+        check = "elem" if {k: v for k, v in fn.items() if k != "py"} in ELEMENTWISE else "generic"
     elif op == "norm":
         fn, check = {"name": "norm"}, "norm"
         extra["tol"] = TOL
@@ -300,24 +393,135 @@ def model_fn_and_check(case, before, cap):
 
 
 def check_table(ctx, impls, case, tags=()):
+    import biom.err
     mods = impls[case["impl"]]
     t = build_case_table(case)
+    stress = case.get("stress")
+    srng = random.Random(stress) if stress is not None else None
+    bystanders = []
+    if srng is not None:
+        # aliasing: tables derived from the receiver stay alive; identity-keyed caches: the accessors are read
+        # before the call; layout: a few read-only calls leave the matrix in whatever layout they leave it
+        bystanders = make_bystanders(t, srng)
+        if srng.random() < 0.5:
+            view_tables(t, srng, which=srng.randint(1, 3))
+        ctx.count("table:poke=%s" % ",".join(core.poke_layout(t, srng)))
+        if srng.random() < 0.7:
+            # per-ID reads flip the matrix between CSR and CSC (a NEW matrix object each time); to meet a cache keyed
+            # by object identity the last reads before the call must leave the layout the call will work on:
+            # read along the axis of the call, then ask the accessors again without changing the layout
+            ax_ids = list(t.ids(axis=case["axis"] if case["op"] != "pa" else "sample"))
+            rd_axis = case["axis"] if case["op"] != "pa" else "sample"
+            t.data(ax_ids[0], axis=rd_axis)
+            int(t.nnz)
+            for i in ax_ids:
+                t.data(i, axis=rd_axis)
+            list(t.iter(axis=rd_axis))
+            ctx.count("table:settled-before-call")
     before = core.table_obs(t)
     facts = core.layout_facts(t)
     axis = case["axis"] if case["op"] != "pa" else "sample"
+    profile = case.get("profile")
     try:
-        res, cap = spy_run(mods, lambda: invoke(case, t))
+        if profile:
+            with biom.err.errstate(empty=profile):
+                res, cap = spy_run(mods, lambda: invoke(case, t))
+        else:
+            res, cap = spy_run(mods, lambda: invoke(case, t))
     except Exception as e:  # the property promises a result for every table of the domain
         ctx.case(case, nontrivial=True)
         ctx.fail(case, "raised:" + core.err_name(e), tuple(tags) + ("table", "impl=" + case["impl"], "op=" + case["op"],
                                                                     "axis=" + axis), detail={"exc": repr(e)})
         return None
+    # by-ID clauses are evaluated on what is read right after the call, before any other accessor
     obs = {"log": cap.get("log", []), "result": core.table_obs(res), "selfAfter": core.table_obs(t),
            "sameObj": res is t, "storedZeros": core.layout_facts(res).get("stored_zeros", 0)}
-    return ask_table(ctx, case, before, axis, case["inplace"], cap, obs, facts, tags)
+    extra = {}
+    if srng is not None:
+        nnz_first = int(res.nnz)           # before any accessor replaces the matrix object
+        same_axis_first = [core.frac(x) for i in res.ids(axis=axis) for x in res.data(i, axis=axis)]
+        extra["viewsResult"] = view_tables(res, srng)
+        extra["nnzResult"] = [nnz_first, int(res.nnz)]
+        vecs = vectors_of(obs["result"], axis)
+        if same_axis_first != [x for _, v in vecs for x in v]:
+            ctx.fail(case, "accessor-data-stale", tuple(tags) + ("table", "stress", "impl=" + case["impl"],
+                                                                 "op=" + case["op"], "axis=" + axis))
+        if res is not t:
+            extra["viewsSelf"] = view_tables(t, srng, which=2)
+    r = ask_table(ctx, case, before, axis, case["inplace"], cap, obs, facts, tags, extra)
+    if srng is not None:
+        ttags = tuple(tags) + ("table", "stress", "impl=" + case["impl"], "op=" + case["op"], "axis=" + axis)
+        for name, b, b_before in bystanders:
+            if core.table_obs(b) != b_before or not coherent_lookup(b):
+                ctx.fail(case, "bystander-changed", ttags + ("bystander=" + name,),
+                         detail={"before": b_before, "after": core.table_obs(b)})
+        if not coherent_lookup(res) or not coherent_lookup(t):
+            ctx.fail(case, "lookup-incoherent", ttags)
+        if res is not t:
+            # the other direction: changing the RESULT in place must not reach the receiver
+            keep = core.table_obs(t)
+            res.transform(lambda v, i, m: v * 2, axis=srng.choice(["sample", "observation"]), inplace=True)
+            res.pa(inplace=True)
+            if core.table_obs(t) != keep:
+                ctx.fail(case, "result-aliases-receiver", ttags, detail={"before": keep, "after": core.table_obs(t)})
+    return r
 
 
-def ask_table(ctx, case, before, axis, inplace, cap, obs, facts, tags):
+def check_refused(ctx, impls, case, tags=()):
+    """calls that must be refused leave the receiver (and live derived tables) unchanged and coherent"""
+    from biom.exception import UnknownAxisError
+    mods = impls[case["impl"]]
+    t = build_case_table(case)
+    srng = random.Random(case.get("stress", 0))
+    bystanders = make_bystanders(t, srng)
+    before = core.table_obs(t)
+    kind = case["refuse"]
+    calls = []
+
+    def counting(v, i, m):
+        calls.append(str(i))
+        return v
+    want = {"bad-axis-transform": UnknownAxisError, "bad-axis-norm": UnknownAxisError,
+            "bad-axis-rankdata": UnknownAxisError, "bad-method": ValueError, "short-return-copy": ValueError}[kind]
+    raised = None
+    try:
+        with kernels.use_kernels(mods):
+            if kind == "bad-axis-transform":
+                t.transform(counting, axis=case["axis"], inplace=case["inplace"])
+            elif kind == "bad-axis-norm":
+                t.norm(axis=case["axis"], inplace=case["inplace"])
+            elif kind == "bad-axis-rankdata":
+                t.rankdata(axis=case["axis"], inplace=case["inplace"])
+            elif kind == "bad-method":
+                t.rankdata(axis=case["axis"], inplace=case["inplace"], method="no-such-method")
+            else:
+                t.transform(lambda v, i, m: v[:-1] if len(v) > 2 else v, axis=case["axis"], inplace=False)
+    except Exception as e:
+        raised = e
+    ctx.case(case, nontrivial=True)
+    ctx.count("refused:%s" % kind)
+    ttags = tuple(tags) + ("refused", "impl=" + case["impl"], "kind=" + kind)
+    has_long = any(sum(1 for x in v if x != "0") > 2 for _, v in vectors_of(before, case["axis"])) \
+        if case["axis"] in ("sample", "observation") else False
+    if kind == "short-return-copy" and not has_long:
+        # no vector with three non-zero values (numpy broadcasts a single value): the call is legitimate
+        if raised is not None:
+            ctx.fail(case, "raised:" + core.err_name(raised), ttags, detail={"exc": repr(raised)})
+    elif raised is None:
+        ctx.fail(case, "not-refused", ttags)
+    elif not isinstance(raised, want):
+        ctx.fail(case, "refused-with:" + type(raised).__name__, ttags, detail={"exc": repr(raised)})
+    if kind.startswith("bad-axis") and calls:
+        ctx.fail(case, "function-called-before-refusal", ttags, detail={"calls": calls})
+    if core.table_obs(t) != before or not coherent_lookup(t):
+        ctx.fail(case, "refused-call-changed-receiver", ttags, detail={"before": before, "after": core.table_obs(t)})
+    for name, b, b_before in bystanders:
+        if core.table_obs(b) != b_before or not coherent_lookup(b):
+            ctx.fail(case, "bystander-changed", ttags + ("bystander=" + name,))
+    return None
+
+
+def ask_table(ctx, case, before, axis, inplace, cap, obs, facts, tags, more=None):
     tags = tuple(tags) + ("table", "impl=" + case["impl"], "op=" + case["op"], "axis=" + axis,
                           "route=" + str(case.get("route")), "hist=" + str(case.get("hist")),
                           "values=" + str(case.get("wild") or "ordinary"))
@@ -339,6 +543,13 @@ def ask_table(ctx, case, before, axis, inplace, cap, obs, facts, tags):
     req = dict({"op": "transform", "t": before, "axis": axis, "inplace": inplace, "fn": fn, "cs": cap["cs"],
                 "check": check, "obs": obs, "layout": cap["fmt"], "axisnum": cap["axisnum"],
                 "wantLayout": want_fmt}, **extra)
+    req.update(more or {})
+    if case.get("stress") is not None:
+        ctx.count("table:stress")
+    if case.get("profile"):
+        ctx.count("table:profile=%s" % case["profile"])
+    if case.get("call"):
+        ctx.count("table:call=%s" % case["call"])
     r = ctx.driver.ask(req)
     if not r["holds"]:
         ctx.fail(case, r["clause"], tags, detail={"obs": obs, "cs": cap["cs"], "model": r["model"]})
@@ -398,7 +609,21 @@ def check_cli(ctx, impls, case, tags=()):
         loaded = load_table(inp)
         before = core.table_obs(loaded)
         facts = core.layout_facts(loaded)
-        args = ["-i", inp, "-o", out, "-r" if case["op"] == "norm" else "-p", "-a", case["axis"]]
+        spell = case.get("spell")
+        if spell == "long":
+            args = ["--input-fp", inp, "--output-fp", out,
+                    "--relative-abund" if case["op"] == "norm" else "--presence-absence", "--axis", case["axis"]]
+        elif spell == "default-axis":   # -a left out: the sample axis
+            args = ["-o", out, "-r" if case["op"] == "norm" else "-p", "-i", inp]
+        else:
+            args = ["-i", inp, "-o", out, "-r" if case["op"] == "norm" else "-p", "-a", case["axis"]]
+        if case.get("refuse") == "both":
+            args = ["-i", inp, "-o", out, "-r", "-p", "-a", case["axis"]]
+        elif case.get("refuse") == "neither":
+            args = ["-i", inp, "-o", out, "-a", case["axis"]]
+        elif case.get("refuse") == "bad-axis":
+            args = ["-i", inp, "-o", out, "-r", "-a", "whole"]
+        in_bytes = open(inp, "rb").read()
         # the sub-command object is invoked directly: the GROUP's on-close hook re-opens fd 1 and, inside
         # CliRunner's isolation, ends up closing the process's real stdout; fd 1 is protected as well
         saved_fd = os.dup(1)
@@ -407,8 +632,21 @@ def check_cli(ctx, impls, case, tags=()):
         finally:
             os.dup2(saved_fd, 1)
             os.close(saved_fd)
+        if open(inp, "rb").read() != in_bytes:
+            ctx.fail(case, "cli-input-file-changed", tuple(tags) + ("cli", "impl=" + case["impl"]))
+        if case.get("refuse"):
+            ctx.case(case, nontrivial=True)
+            ctx.count("cli:refused:%s" % case["refuse"])
+            if res.exit_code == 0:
+                ctx.fail(case, "cli-not-refused", tuple(tags) + ("cli", "refuse=" + case["refuse"]),
+                         detail={"output": str(res.output)[-300:]})
+            if os.path.exists(out):
+                ctx.fail(case, "cli-refused-but-wrote-output", tuple(tags) + ("cli", "refuse=" + case["refuse"]))
+            if cap["calls"] != 0:
+                ctx.fail(case, "cli-refused-but-transformed", tuple(tags) + ("cli", "refuse=" + case["refuse"]))
+            return None
         if res.exit_code != 0:
-            ctx.fail(case, "cli-exit", tags + ("cli",), detail={"output": str(res.output)[-500:], "exc": repr(res.exception)})
+            ctx.fail(case, "cli-exit", tuple(tags) + ("cli",), detail={"output": str(res.output)[-500:], "exc": repr(res.exception)})
             ctx.case(case, nontrivial=True)
             return None
         result = load_table(out)
@@ -419,7 +657,7 @@ def check_cli(ctx, impls, case, tags=()):
     axis = case["axis"] if case["op"] == "norm" else "sample"
     obs = {"log": cap.get("log", []), "result": robs, "selfAfter": robs, "sameObj": True,
            "storedZeros": core.layout_facts(result).get("stored_zeros", 0)}
-    ctx.count("cli:%s:%s" % (case["op"], case["fmt"]))
+    ctx.count("cli:%s:%s:%s" % (case["op"], case["fmt"], case.get("spell") or "short"))
     r = ask_table(ctx, case, before, axis, True, cap, obs, facts, tuple(tags) + ("cli",))
     if robs != api:
         ctx.fail(case, "cli-equals-api", tuple(tags) + ("cli", "impl=" + case["impl"]), detail={"cli": robs, "api": api})
@@ -480,6 +718,57 @@ def gen_table_case(rng, impl, op=None):
         case["fn"] = rng.choice(ELEMENTWISE + VECTORWISE + VECTORWISE)
     if op == "rankdata":
         case["method"] = rng.choice(RANK_METHODS)
+    return case
+
+
+def tricky_ids(rng, spec):
+    """IDs live in fixed-width arrays: one ID of an axis gets a trailing blank / newline, becomes much longer than
+    all others, or gets non-ASCII text whose UTF-8 length exceeds its character count"""
+    spec = dict(spec)
+    key = rng.choice(["obs", "samp"])
+    ids = list(spec[key])
+    k = rng.randrange(len(ids))
+    how = rng.choice(["blank", "newline", "long", "utf8", "prefix"])
+    if how == "blank":
+        ids[k] = ids[k] + " "
+    elif how == "newline":
+        ids[k] = ids[k] + "\n"
+    elif how == "long":
+        ids[k] = ids[k] + "_" + "L" * 70
+    elif how == "utf8":
+        ids[k] = ids[k] + "é日本µ" * 6
+    else:
+        ids[k] = ids[(k + 1) % len(ids)] + "x"   # an extension of a neighbour's ID
+    if len(set(ids)) == len(ids):
+        spec[key] = ids
+    return spec, how
+
+
+def decorate(rng, case):
+    """the stressors of the hardening pass, drawn independently for every table-level case"""
+    if rng.random() < 0.3:
+        case["stress"] = rng.randrange(1 << 30)   # bystanders, pre-reads, layout poke, accessor views
+    if rng.random() < 0.15:
+        case["profile"] = rng.choice(["raise", "warn", "call"])
+    if rng.random() < 0.15:
+        case["call"] = "positional"
+    if case["op"] == "transform" and case["fn"]["name"] == "scale" and rng.random() < 0.5:
+        case["fn"] = dict(case["fn"], py=rng.choice(["inplace", "list", "tuple"]))
+    if rng.random() < 0.2:
+        case["spec"], how = tricky_ids(rng, case["spec"])
+        case["ids"] = how
+    return case
+
+
+def gen_refused_case(rng, impl):
+    kind = rng.choice(["bad-axis-transform", "bad-axis-norm", "bad-axis-rankdata", "bad-method", "short-return-copy"])
+    case = {"level": "refused", "impl": impl, "refuse": kind, "spec": gen_table_spec(rng, nonneg=True),
+            "route": rng.choice(core.ROUTES), "hist": rng.choice(HISTS), "inplace": rng.choice([True, False]),
+            "stress": rng.randrange(1 << 30)}
+    if kind.startswith("bad-axis"):
+        case["axis"] = rng.choice(["samples", "Sample", "whole", "obs", "", "observation ", "0"])
+    else:
+        case["axis"] = rng.choice(["sample", "observation"])
     return case
 
 
@@ -547,7 +836,8 @@ def dispatch(ctx, impls, case, tags=()):
         ctx.notes.append("implementation %s unavailable, case skipped" % case["impl"])
         return None
     lvl = case["level"]
-    fn = {"kernel": check_kernel, "table": check_table, "axisfree": check_axisfree, "cli": check_cli}[lvl]
+    fn = {"kernel": check_kernel, "table": check_table, "axisfree": check_axisfree, "cli": check_cli,
+          "refused": check_refused}[lvl]
     try:
         return fn(ctx, impls, case, tags)
     except RuntimeError:
@@ -581,7 +871,9 @@ def run(ctx):
                 "{element-wise, vector-wise, norm, pa, 5 rank methods} x both implementations; axis-free: element-wise "
                 "function along both axes, in place or not; cli: normalize-table on JSON/HDF5 files; every third table case "
                 "draws tiny/huge magnitudes (5e-324 .. 1e300, totals above 1e8 with a singleton) under exact operations "
-                "and norm -> X chains. non-trivial = "
+                "and norm -> X chains; stressors per case: live derived tables, accessor pre-reads and post-views, layout "
+                "pokes, tricky ID text, positional calls, mutating/list-returning functions, error profiles, 64+ ID axes; "
+                "refused calls. non-trivial = "
                 "kernel: at least one vector and two stored values; table: at least two non-zero cells and a grid "
                 "that is not its own transpose. distinct = distinct case content")
     ctx.trusted = ["scipy tocsr/tocsc/eliminate_zeros and scipy.stats.rankdata are external: the matrix handed to the "
@@ -593,8 +885,8 @@ def run(ctx):
         dispatch(ctx, impls, case, ("fixed-corpus",))
     quick = ctx.quick()
     nw = max(1, getattr(ctx, "worker", (0, 1))[1])  # thorough totals are split over the worker processes
-    n_kernel = 1200 if quick else 80000 // nw
-    n_table = 1600 if quick else 100000 // nw
+    n_kernel = 800 if quick else 80000 // nw
+    n_table = 1100 if quick else 100000 // nw
     n_axis = 100 if quick else 6000 // nw
     n_cli = 20 if quick else 800 // nw
     # systematic kernel sweep: every named function x stored zeros x index order, on both implementations
@@ -618,8 +910,33 @@ def run(ctx):
                     dispatch(ctx, impls, dict({"level": "table", "impl": impl, "op": op, "spec": spec,
                                                   "route": route, "hist": hist or None, "axis": axis,
                                                   "inplace": rng.choice([True, False])}, **kw), ("systematic",))
+    # size thresholds: a few tables with 64+ IDs on the transformed or on the other axis; every op along both axes,
+    # in place or not, mostly in the layout the call works on (own arrays), so that size-gated shortcuts show
+    for k in range(2 if quick else 8):
+        wide_axis = rng.choice(["sample", "observation"])
+        spec = core.wide_spec(rng, axis=wide_axis, classes=("count", "smallcount", "dyadic"), md=rng.random() < 0.5)
+        for axis in ("sample", "observation"):
+            for inplace in (True, False):
+                for op, kw in (("pa", {}), ("norm", {}), ("rankdata", {"method": rng.choice(RANK_METHODS)}),
+                               ("transform", {"fn": rng.choice(VECTORWISE + ELEMENTWISE[6:8])})):
+                    own = rng.random() < 0.7
+                    case = {"level": "table", "op": op, "spec": spec, "route": rng.choice(core.ROUTES),
+                            "hist": ("csc-transform" if axis == "sample" else "csr-transform") if own
+                            else rng.choice(HISTS[:5]),
+                            "axis": axis, "inplace": inplace, "wide": wide_axis}
+                    case.update(kw)
+                    if rng.random() < 0.4:
+                        case["stress"] = rng.randrange(1 << 30)
+                    if ctx.mine(k):
+                        for impl in names:
+                            dispatch(ctx, impls, dict(case, impl=impl), ("wide",))
+    for k in range(40 if quick else 1600 // nw):
+        case = gen_refused_case(rng, names[0])
+        for impl in names:
+            dispatch(ctx, impls, dict(case, impl=impl))
     for k in range(n_table):
         case = gen_wild_case(rng, names[0]) if k % 3 == 2 else gen_table_case(rng, names[0])
+        decorate(rng, case)
         if not quick and "wild" not in case and rng.random() < 0.2:
             case["spec"] = gen_table_spec(rng, nonneg=(case["op"] == "norm"), big=True)
         for impl in names:
@@ -639,6 +956,11 @@ def run(ctx):
                 "spec": gen_table_spec(rng, nonneg=True, wild="norm" if k % 2 else None),
                 "route": rng.choice(core.ROUTES), "axis": rng.choice(["sample", "observation"]),
                 "fmt": rng.choice(["json", "hdf5"]), "inplace": True}
+        case["spell"] = rng.choice([None, "long", "default-axis"])
+        if case["spell"] == "default-axis":
+            case["axis"] = "sample"
+        if k % 5 == 4:
+            case["refuse"] = rng.choice(["both", "neither", "bad-axis"])
         for impl in names:
             dispatch(ctx, impls, dict(case, impl=impl))
     shutil.rmtree(TMP, ignore_errors=True)
